@@ -1,7 +1,8 @@
 """C16 — reported metrics are consistent with the trades and the equity series.
 
 proof:   Props/C16.v (total = winners + losers + break-even; net profit = gross profit + gross loss = sum of PnL; longs + shorts = total and their percentages
-         sum to 100; win rate in [0,1] with win_rate * (W+L) = W; expectancy * (W+L) = net profit; largest win bounds every winner; maximum drawdown <= 0)
+         sum to 100; win rate in [0,1] with win_rate * (W+L) = W; expectancy * (W+L) = net profit; largest win/loss bound the winners/losers and are one of them;
+         winning/losing streak = longest block of consecutive winners/losers; drawdown_k = equity_k / max(equity_0..k) - 1, maximum drawdown in (-1, 0])
 tie:     the metric definitions of Model/Metrics.v evaluated in Coq against services/metrics.trades on synthetic trade lists (all wins, all losses, zero-PnL
          trades, one trade, thousands of trades, any long/short mix) and equity series
 search:  the ratio metrics (max drawdown, annual return, Sharpe, Sortino, Calmar, Omega) against their standard definitions recomputed independently;
@@ -15,7 +16,9 @@ from . import common as C
 
 PID = 'C16'
 THEOREMS = ['C16_total_is_winners_losers_breakeven', 'C16_net_profit_is_gross_profit_plus_gross_loss', 'C16_longs_and_shorts_partition', 'C16_percentages_sum_to_100',
-            'C16_win_rate_spec', 'C16_expectancy_is_net_profit_per_decided_trade', 'C16_largest_win_bounds', 'C16_max_drawdown_never_positive']
+            'C16_win_rate_spec', 'C16_expectancy_is_net_profit_per_decided_trade', 'C16_largest_win_bounds', 'C16_max_drawdown_never_positive',
+            'C16_streaks_are_longest_blocks', 'C16_largest_win_is_a_winner', 'C16_largest_loss_spec', 'C16_drawdown_is_distance_from_running_peak',
+            'C16_max_drawdown_is_one_of_the_drawdowns', 'C16_max_drawdown_range']
 NAMES = ['total', 'total_winning_trades', 'total_losing_trades', 'win_rate', 'net_profit', 'net_profit_percentage', 'gross_profit', 'gross_loss', 'fee', 'longs_count',
          'shorts_count', 'longs_percentage', 'shorts_percentage', 'average_win', 'average_loss', 'expectancy', 'largest_winning_trade', 'largest_losing_trade',
          'winning_streak', 'losing_streak', 'current_streak', 'max_drawdown']
@@ -105,7 +108,8 @@ def equity_sessions(rng, tier):
     from jesse.store import store
     import jesse.helpers as jh
     bad, n_samples, n_sessions = [], 0, 0
-    for k in range(4 if tier == 'quick' else 24):
+    open_pnl_samples = 0
+    for k in range(6 if tier == 'quick' else 24):
         typ = ['futures', 'spot'][k % 2]
         syms = ['BTC-USDT'] if k % 4 < 2 else ['BTC-USDT', 'ETH-USDT']
         if k % 8 >= 4: syms = list(reversed(syms))
@@ -116,11 +120,15 @@ def equity_sessions(rng, tier):
         for s in syms:
             sc = E.gen_script(rng, rng.randrange(1 << 30))
             sc.update({'digest': False, 'entry_every': rng.choice([5, 7, 11]), 'liquidate_every': 0, 'offs': rng.choice([[0], [-1, 0, 1]]), 'qty': rng.choice([0.5, 1.0])})
-            if k % 2 == 0:
+            if k % 4 == 0:
                 # market entries on almost every trading candle, quick exits: some entry falls on the candle that closes a day
                 # (entry at market when flat, liquidate() at market on the next candle: a MARKET order is submitted on every trading candle, also the day's last)
                 sc.update({'entry_every': 1, 'liquidate_every': 1, 'offs': [0], 'points': 1, 'exit_style': 'none', 'cancel_entry': 'always', 'side': 'long',
                            'max_submissions': 20000})
+            elif k % 4 == 2:
+                # positions held for hours with wide exits: some day boundary falls inside a trade, where equity = wallet + unrealised PnL
+                sc.update({'entry_every': rng.choice([40, 90]), 'exit_style': 'on_open', 'sl_dist': 400, 'tp_dist': 400, 'cancel_entry': 'never', 'points': 1, 'offs': [0],
+                           'modify': 'none'})
             if typ == 'spot': sc['side'] = 'long'
             scripts[s] = sc
         samples = []
@@ -139,6 +147,7 @@ def equity_sessions(rng, tier):
                     pz = store.positions.storage.get(f'{e.name}-{sym_}')
                     eqv += b_ * ((pz.current_price if pz else 0) or 0)
             samples.append({'recorded': float(store.app.daily_balance[-1]), 'equity': float(eqv), 'time': store.app.time, 'initial': bool(is_initial),
+                            'open_pnl': float(sum(abs(p.pnl) for p in store.positions.storage.values() if p.is_open)) if e.type == 'futures' else 0.0,
                             'pending_market_orders': len(store.orders.to_execute)})
         bm.save_daily_portfolio_balance = rec
         from jesse.models import Order
@@ -161,7 +170,7 @@ def equity_sessions(rng, tier):
         try:
             # a 1m route: the strategy also runs on the minute that closes a day, where the equity sample is taken
             out = E.run_session(cs, [(s, '1m' if k % 2 == 0 else rng.choice(['5m', '15m'])) for s in syms], scripts=scripts, exchange_type=typ, fee=fee_rate,
-                                leverage=2, balance=10000.0, fast=(k % 3 == 2))
+                                leverage=rng.choice([2, 3, 5]), balance=10000.0, fast=(k % 3 == 2))
         finally:
             bm.save_daily_portfolio_balance = orig
             Order.execute = o_exec
@@ -169,6 +178,7 @@ def equity_sessions(rng, tier):
             continue
         n_sessions += 1
         n_samples += len(samples)
+        open_pnl_samples += sum(1 for sm in samples if sm['open_pnl'] > 1e-9)
         base = {'exchange_type': typ, 'symbols': syms, 'minutes': n, 'scripts': scripts}
         daily = out.get('daily', [])
         if not samples or not same(samples[0]['recorded'], 10000.0):
@@ -181,7 +191,7 @@ def equity_sessions(rng, tier):
                 bad.append(('equity_sampled_while_market_orders_of_that_minute_are_still_pending', dict(base, sample_index=i, sample=sm))); break
             if not same(sm['recorded'], sm['equity'], 1e-9):
                 bad.append((f'equity_sample_differs_from_account_equity:{typ}', dict(base, sample_index=i, sample=sm))); break
-    return bad, n_samples, n_sessions
+    return bad, n_samples, n_sessions, open_pnl_samples
 
 
 def run(tier, seed, replay=None):
@@ -244,7 +254,8 @@ def run(tier, seed, replay=None):
     res.oblige('C16 case files evaluated', not errs, '\n'.join(errs[:2]))
     res.oblige('metrics.trades ran on the synthetic trade lists', not errs_real, json.dumps(errs_real[:2])[:500])
     res.oblige('correspondence: the metric definitions of Model/Metrics.v = services/metrics.trades (22 reported values per trade list)', not bad, json.dumps(bad[:2], default=str)[:1200])
-    eq_bad, n_samples, n_sessions = equity_sessions(rng, tier)
+    eq_bad, n_samples, n_sessions, open_pnl_samples = equity_sessions(rng, tier)
+    res.extra['equity_samples_taken_with_unrealised_pnl'] = open_pnl_samples
     res.add_cases(len(use) + n_samples, len(use) + n_samples, [], f'{len(use)} synthetic trade lists (all wins, all losses, zero-PnL trades, a single trade, up to 1500 trades, long/short mixes) '
                   f'with equity series of 2..41 samples; {len(cases)} ratio comparisons; {n_sessions} real sessions of 2-3 days (spot and futures, one and two routes in both '
                   f'orders, normal and fast simulator) with {n_samples} equity samples recomputed independently')
